@@ -111,6 +111,20 @@ def observe(torch, inst):
             "buffers": [[n, short(torch, b.dtype)] for n, b in inst.named_buffers()]}
 
 
+_EXPU = []
+
+
+def _ExpU():
+    if not _EXPU:
+        from pfhedge.nn import HedgeLoss
+
+        class ExpU(HedgeLoss):
+            def forward(self, input, target=0.0):
+                return (-(input - target)).exp().mean(0)
+        _EXPU.append(ExpU)
+    return _EXPU[0]()
+
+
 def run_case(torch, I, ctx, prim, init, ambient, ops, use_deriv):
     from pfhedge.nn import Hedger, Naked
     torch.set_default_dtype(tdt(torch, ambient))
@@ -140,7 +154,13 @@ def run_case(torch, I, ctx, prim, init, ambient, ops, use_deriv):
                         extra["alias"] = "derivative.dtype differs from its underlier's"
                     h = Hedger(Naked(), ["moneyness", "time_to_maturity", "zeros"])
                     res["hedge"] = h.compute_hedge(deriv).dtype
-                    res["pl"] = h.compute_pl(deriv).dtype
+                    pl_ = h.compute_pl(deriv)
+                    res["pl"] = pl_.dtype
+                    res["loss"] = h.criterion(pl_).dtype
+                    res["cash"] = h.criterion.cash(pl_).dtype
+                    if pl_.dtype in (torch.float32, torch.float64):
+                        # a user criterion relying on HedgeLoss.cash (the search precision 1e-6 is below half-precision resolution)
+                        res["cash_default_search"] = _ExpU().cash(pl_).dtype
                 extra["results"] = {k: short(torch, v) for k, v in res.items()}
             except (RuntimeError, NotImplementedError) as e:
                 extra["results_backend"] = str(e)[:60]
